@@ -328,7 +328,7 @@ Proof.
   match goal with H : commit_pass _ _ = Ok _ |- _ => apply commit_pass_inv1 in H; [|exact Hi]; rename H into H1 end.
   match goal with H : transitions _ (firstn _ _) _ = Ok _ |- _ => apply transitions_fin in H; rename H into F1 end.
   match goal with H : transitions _ (skipn _ _) _ = Ok _ |- _ => apply transitions_fin in H; rename H into F2 end.
-  eapply inv1_fin; [|exact H1]. unfold fin in *. cbn [set_view s_ont s_stakes s_pens]. congruence.
+  eapply inv1_fin; [|exact H1]. unfold fin in *. cbn [set_prev set_view s_ont s_stakes s_pens]. congruence.
 Qed.
 
 Lemma exec_black_inv1 : forall h s sg l s', inv1 s -> exec_black h s sg l = Ok s' -> inv1 s'.
